@@ -52,6 +52,7 @@ type VxOut struct {
 	AssumeViolated bool     `json:"assume_violated"`
 	Panic          string   `json:"panic"`
 	Deadlock       bool     `json:"deadlock"`
+	Diverged       bool     `json:"diverged"`
 }
 
 // VxRunReplays runs every job in jobsFile through dispatch and writes the outcomes.
@@ -84,6 +85,7 @@ func VxRunReplays(jobsFile, outFile string, dispatch map[string]func([]int64)) {
 		out.Failures, out.Reached, out.Observed, out.AssumeViolated = j.Failures, j.Reached, j.Observed, j.AssumeViolated
 		if j.sch != nil {
 			out.Deadlock = j.sch.deadlocked
+			out.Diverged = j.sch.diverged
 		}
 		outs = append(outs, out)
 		VxRT = nil
